@@ -330,7 +330,7 @@ fn gen_sig_value(rng: &mut ChaCha8Rng, alg: u8, i: u64) -> (Vec<u8>, bool) {
 }
 
 fn gen_signature(rng: &mut ChaCha8Rng, i: u64) -> Gen {
-    let version = [4u8, 6, 4, 6, 3][(i % 5) as usize];
+    let version = [4u8, 6, 4, 6, 3, 4, 6, 2][(i % 8) as usize];
     let typ = any_id(rng, &[0, 1, 0x10, 0x13, 0x18, 0x19, 0x1F, 0x20, 0x28, 0x30, 0x40, 0x50], if i % 3 == 0 { i / 3 } else { 999 });
     let pub_alg = any_id(rng, &[1, 17, 19, 22, 27, 28], if i % 3 == 1 { i / 3 } else { 999 });
     let hash_alg = any_id(rng, &HASHS, if i % 3 == 2 { i / 3 } else { 999 });
@@ -1120,6 +1120,94 @@ pub fn run(ctx: &mut Ctx) {
                 packet_checks(ctx, &Packet::SecretKey(k4.primary_key.clone()), None, "api-unlocked-again", &replay);
                 if k4.primary_key.to_bytes().ok() != key.primary_key.to_bytes().ok() {
                     ctx.violation("C05/lock-unlock-changes-bytes", name.to_string(), replay.clone());
+                }
+            }
+        }
+        // subpacket values built and modified through the API: the length a value announces is the length it
+        // writes, and the signature that carries it serialises truthfully and parses back to the same value
+        if !slow && ki % 2 == 0 {
+            use pgp::packet::{Features, KeyFlags, SignatureConfig, SignatureType, Subpacket, SubpacketData};
+            let setters: [(&str, fn(&mut KeyFlags)); 9] = [
+                ("certify", |f| f.set_certify(true)),
+                ("sign", |f| f.set_sign(true)),
+                ("encrypt_comms", |f| f.set_encrypt_comms(true)),
+                ("encrypt_storage", |f| f.set_encrypt_storage(true)),
+                ("shared", |f| f.set_shared(true)),
+                ("authentication", |f| f.set_authentication(true)),
+                ("group", |f| f.set_group(true)),
+                ("adsk", |f| f.set_adsk(true)),
+                ("timestamping", |f| f.set_timestamping(true)),
+            ];
+            // starting values: default, parsed from 1 / 2 / 3 octets
+            let starts: Vec<(&str, KeyFlags)> = {
+                let mut v = vec![("default", KeyFlags::default())];
+                for (n, raw) in [("1-octet", &[0x03u8][..]), ("2-octet", &[0x03, 0x04][..]), ("3-octet", &[0x01, 0x00, 0x80][..]), ("0-octet", &[][..])] {
+                    if let Ok(k) = KeyFlags::try_from_reader(raw) {
+                        v.push((n, k));
+                    }
+                }
+                v
+            };
+            for (sname, start) in &starts {
+                for mask in 0u32..(1 << setters.len()) {
+                    // all single setters, all pairs, and a sample of the rest
+                    if mask.count_ones() > 2 && mask % 37 != 5 {
+                        continue;
+                    }
+                    let mut kf = start.clone();
+                    let mut names = vec![];
+                    for (bi, (n, f)) in setters.iter().enumerate() {
+                        if mask & (1 << bi) != 0 {
+                            f(&mut kf);
+                            names.push(*n);
+                        }
+                    }
+                    let mut w = vec![];
+                    let _ = kf.to_writer(&mut w);
+                    ctx.eval();
+                    if kf.write_len() != w.len() {
+                        ctx.violation(
+                            "C05/subpacket-value/write_len-mismatch/key-flags",
+                            format!("KeyFlags ({sname}, then set {names:?}): write_len() = {} but {} octets are written", kf.write_len(), w.len()),
+                            json!({"start": sname, "setters": names}),
+                        );
+                        continue;
+                    }
+                    if mask.count_ones() <= 1 || mask % 37 == 5 {
+                        // inside a signature
+                        let mut c = SignatureConfig::from_key(&mut rng, &key.primary_key, SignatureType::Key).expect("config");
+                        c.hashed_subpackets = vec![
+                            Subpacket::regular(SubpacketData::SignatureCreationTime(pgp::types::Timestamp::from_secs(1_700_000_000))).unwrap(),
+                            Subpacket::regular(SubpacketData::IssuerFingerprint(key.primary_key.fingerprint())).unwrap(),
+                            Subpacket::regular(SubpacketData::KeyFlags(kf.clone())).unwrap(),
+                        ];
+                        if let Ok(sig) = c.sign_key(&key.primary_key, &Password::empty(), key.primary_key.public_key()) {
+                            ctx.cover(&("api-keyflags", sname, mask));
+                            packet_checks(ctx, &Packet::Signature(sig.clone()), None, "api-sig-keyflags-set", &json!({"family": "A", "key": name, "start": sname, "setters": names}));
+                            let kf2 = sig.key_flags();
+                            let mut w2 = vec![];
+                            let _ = kf2.to_writer(&mut w2);
+                            if w2 != w {
+                                ctx.violation("C05/subpacket-value/reparse-differs/key-flags", format!("KeyFlags ({sname}, set {names:?}) written {} read back {}", hexs(&w), hexs(&w2)), json!({"start": sname, "setters": names}));
+                            }
+                        }
+                    }
+                }
+            }
+            // Features
+            for mask in 0u8..4 {
+                let mut f = Features::default();
+                if mask & 1 != 0 {
+                    f.set_seipd_v1(true);
+                }
+                if mask & 2 != 0 {
+                    f.set_seipd_v2(true);
+                }
+                let mut w = vec![];
+                let _ = f.to_writer(&mut w);
+                ctx.eval();
+                if f.write_len() != w.len() {
+                    ctx.violation("C05/subpacket-value/write_len-mismatch/features", format!("Features mask {mask}: write_len {} written {}", f.write_len(), w.len()), json!({"mask": mask}));
                 }
             }
         }
